@@ -197,12 +197,13 @@ def convert(case, csv_text, workdir):
                     with open(cfgp, 'w') as f:
                         json.dump(config, f, sort_keys=True)
                     extra = ['--config-file', cfgp]
+                dbg = ['--debug'] if len(csv_text) % 2 else []
                 sys.argv = ['mci_csv_to_ipm', inp, '--out-encoding', enc] + (['--no1014blocking'] if not blocked
-                                                                            else []) + extra
+                                                                            else []) + extra + dbg
                 mci_csv_to_ipm.cli_entry()
                 ipm = inp + '.ipm'
                 sys.argv = ['mci_ipm_to_csv', ipm, '--in-encoding', enc] + (['--no1014blocking'] if not blocked
-                                                                           else []) + extra
+                                                                           else []) + extra + dbg
                 rc = mci_ipm_to_csv.cli_entry()
                 outp = ipm + '.csv'
     finally:
@@ -301,6 +302,10 @@ def enumerate_cases(tier, seed):
         for enc, blocked in ((('latin_1', True),) if n % 7 else (('latin_1', True), ('cp500', True), ('cp037', False))):
             cases.append({'sweep': n, 'enc': enc, 'blocked': blocked, 'entry': 'func' if n % 50 else 'cli',
                           'seed': seed})
+    # files beyond 1 MiB (1200 rows of ~1.2 kB)
+    if core.AXIS == '':
+        add(['DE2', 'DE31', 'DE63'], 1200, ['plain', 1], 0, [('cp500', True, 'cli'), ('latin_1', False, 'argv'),
+                                                              ('cp037', True, 'func')])
     for n in range(1, 1000, 13 if tier == 'quick' else 3):
         for k, enc in enumerate(CODECS):
             entry = ('cli', 'argv', 'func', 'argv_cfg')[(n + k) % 4]
